@@ -363,17 +363,15 @@ pub fn rlwinm_(
 
     let mask = match mb.cmp(&(me + 1)) {
         Ordering::Less => {
-            let mb = 32 - mb;
-            let me = 32 - me;
-            let mask = (1 << (mb - me)) - 1;
-            mask << me
+            // bits mb..=me (bit 0 is the most significant) are ones
+            let mask = (1u64 << (me - mb + 1)) - 1;
+            mask << (31 - me)
         }
         Ordering::Equal => 0xffff_ffff,
         Ordering::Greater => {
-            let mb = 32 - mb;
-            let me = 32 - me;
-            let mask = (1 << (me - mb)) - 1;
-            let mask = mask << mb;
+            // bits me+1..=mb-1 are zeros
+            let mask = (1u64 << (mb - me - 1)) - 1;
+            let mask = mask << (32 - mb);
             mask ^ 0xffff_ffff
         }
     };
